@@ -65,8 +65,10 @@ long ext2fs_resize_mem(unsigned long old_size, unsigned long size, void *ptr);
  * memmove / realloc of the list: libc's byte-array models are unusable on a list of symbolic length, so the two calls
  * get GHOST-INDEX specifications (C standard: memmove copies n bytes as if through a temporary, realloc keeps the
  * contents up to the smaller size; everything else of the destination object is unchanged resp. indeterminate):
- * the whole object is havocked and the entries at the ghost indices ea_gI, EA_BPK, EA_BPK + 1 (the only ones a
- * postcondition looks at besides the freshly written one) are given the values the standard prescribes.
+ * the whole object is havocked and the entry at the ghost index ea_gI (realloc: also its predecessor, which a following
+ * memmove moves there) — the only entry a postcondition looks at besides the freshly written one — is given the value
+ * the standard prescribes.  Every array access of a specification costs (CBMC turns a list of symbolic length into
+ * an uninterpreted function: quadratic in the number of distinct index terms), hence the economy.
  */
 void *ea_memmove(void *dst, const void *src, size_t n);
 #define memmove ea_memmove
@@ -146,32 +148,30 @@ long ext2fs_free_mem(void *ptr)
 	return 0;
 }
 static struct ea_refcount RC;	/* the container of the harness (its list is the object the stubs below speak about) */
-#define EA_NGHOST 3
-#define EA_GHOST_IDX(n) ((n) == 0 ? ea_gI : (n) == 1 ? EA_BPK : EA_BPK + 1)
 long ext2fs_resize_mem(unsigned long old_size, unsigned long size, void *ptr)
 {
 	struct ea_refcount_el **pp = (struct ea_refcount_el **) ptr, *old = *pp, *new;
-	struct ea_refcount_el keep[EA_NGHOST];
-	unsigned long long g[EA_NGHOST], nold = old_size / sizeof(*old), nnew = size / sizeof(*old);
-	int n;
+	struct ea_refcount_el keep0, keep1;
+	unsigned long long nold = old_size / sizeof(*old), nnew = size / sizeof(*old);
+	int in0 = ea_gI < nold && ea_gI < nnew, in1 = ea_gI >= 1 && ea_gI - 1 < nold && ea_gI - 1 < nnew;
 
-#ifdef EA_SCEN_ROOM
-	__CPROVER_assert(0, "scenario 'room': the list is never resized");
+#if defined(EA_SCEN_ROOM) || defined(EA_SCEN_SHRINK)
+	__CPROVER_assert(0, "scenarios 'room' and 'shrink': the list is never resized");
 	__CPROVER_assume(0);
 #endif
 	__CPROVER_assert(__CPROVER_r_ok(old, old_size), "realloc: old_size bytes of the old list are allocated");
-	for (n = 0; n < EA_NGHOST; n++) {
-		g[n] = EA_GHOST_IDX(n);
-		if (g[n] < nold)
-			keep[n] = old[g[n]];
-	}
 	__CPROVER_assert(size % sizeof(*old) == 0, "realloc: whole entries");
+	if (in0)
+		keep0 = old[ea_gI];
+	if (in1)
+		keep1 = old[ea_gI - 1];
 	new = malloc(nnew * sizeof(struct ea_refcount_el));	/* typed allocation of the same number of bytes */
 	if (!new)
 		return EXT2_ET_NO_MEMORY;
-	for (n = 0; n < EA_NGHOST; n++)
-		if (g[n] < nold && g[n] < nnew)
-			new[g[n]] = keep[n];
+	if (in0)
+		new[ea_gI] = keep0;
+	if (in1)
+		new[ea_gI - 1] = keep1;
 	free(old);
 	*pp = new;
 	return 0;
@@ -179,9 +179,9 @@ long ext2fs_resize_mem(unsigned long old_size, unsigned long size, void *ptr)
 void *ea_memmove(void *dst, const void *src, size_t n)
 {
 	struct ea_refcount_el *base = RC.list;
-	struct ea_refcount_el keep[EA_NGHOST];
-	unsigned long long g[EA_NGHOST], d0, s0, cnt = n / sizeof(*base), total = __CPROVER_OBJECT_SIZE(dst) / sizeof(*base);
-	int i;
+	struct ea_refcount_el keep;
+	unsigned long long d0, s0, cnt = n / sizeof(*base), total = __CPROVER_OBJECT_SIZE(dst) / sizeof(*base);
+	int in = ea_gI < total;
 
 	__CPROVER_assert(__CPROVER_r_ok(src, n) && __CPROVER_w_ok(dst, n), "memmove: source readable, destination writable for n bytes");
 	__CPROVER_assert(__CPROVER_same_object(dst, base) && __CPROVER_same_object(dst, src) && n % sizeof(*base) == 0 &&
@@ -189,74 +189,94 @@ void *ea_memmove(void *dst, const void *src, size_t n)
 			 "memmove: moves whole entries inside the list");
 	d0 = __CPROVER_POINTER_OFFSET(dst) / sizeof(*base);
 	s0 = __CPROVER_POINTER_OFFSET(src) / sizeof(*base);
-	for (i = 0; i < EA_NGHOST; i++) {
-		g[i] = EA_GHOST_IDX(i);
-		if (g[i] < total)
-			keep[i] = (g[i] >= d0 && g[i] < d0 + cnt) ? base[g[i] - d0 + s0] : base[g[i]];
-	}
+	if (in)
+		keep = base[(ea_gI >= d0 && ea_gI < d0 + cnt) ? ea_gI - d0 + s0 : ea_gI];
 	__CPROVER_havoc_object(base);
-	for (i = 0; i < EA_NGHOST; i++)
-		if (g[i] < total)
-			base[g[i]] = keep[i];
+	if (in)
+		base[ea_gI] = keep;
 	return dst;
 }
 
 /* ------------------------------------------------------------------ spec functions and contracts (struct ea_refcount is now known) */
 
-/* partition instance of the list of rc at index i for key K with lower bound P (pure) */
-static int EA_PART(const struct ea_refcount *rc, unsigned long long i, unsigned long long K, unsigned long long P)
-{
-	unsigned long long key;
-
-	if (i >= rc->count)
-		return 1;
-	key = rc->list[i].ea_key;
-	return FSCKDS_PART(key, i, rc->count, K, P);
-}
-static int EA_EXISTS(const struct ea_refcount *rc, unsigned long long K, unsigned long long P)
-{
-	return P < rc->count && rc->list[P].ea_key == K;
-}
-static unsigned long long EA_VIEW(const struct ea_refcount *rc, unsigned long long K, unsigned long long P)
-{
-	return EA_EXISTS(rc, K, P) ? rc->list[P].ea_value : 0;
-}
 #define EA_CUR(rc) ((rc)->cursor >= (rc)->count ? 0 : (rc)->cursor)
 static int EA_BASIC(const struct ea_refcount *rc)
 {
 	return rc->list != 0 && rc->count <= rc->size && rc->size >= 1 && rc->count <= EA_CAP && rc->size <= 2 * EA_CAP;
 }
-static int EA_WF_AT(const struct ea_refcount *rc, unsigned long long i, unsigned long long PA_, unsigned long long PK_)
+#define EA_PART2(k, i, n, PA_, PK_) (FSCKDS_PART(k, i, n, ea_gA, PA_) && FSCKDS_PART(k, i, n, ea_gK, PK_))
+/*
+ * well_formed as far as an operation relies on it, plus the view: PA_ / PK_ are lower bounds of A / K (partition
+ * instances at both of them, at the ghost index and its predecessor, at the last entry and at the effective cursor —
+ * each entry is read once), and view(K) == V.
+ */
+static int EA_STATE_OK(const struct ea_refcount *rc, unsigned long long PA_, unsigned long long PK_, unsigned long long V)
 {
-	unsigned long long key;
+	unsigned long long n = rc->count, i, k, v;
+	int ok = 1;
 
-	if (i >= rc->count)
-		return 1;
-	key = rc->list[i].ea_key;
-	return FSCKDS_PART(key, i, rc->count, ea_gA, PA_) && FSCKDS_PART(key, i, rc->count, ea_gK, PK_);
+	if (!EA_BASIC(rc) || PA_ > n || PK_ > n)
+		return 0;
+	if (PA_ < n) {
+		k = rc->list[PA_].ea_key;
+		ok = ok && EA_PART2(k, PA_, n, PA_, PK_);
+	}
+	if (PK_ < n) {
+		k = rc->list[PK_].ea_key;
+		v = rc->list[PK_].ea_value;
+		ok = ok && EA_PART2(k, PK_, n, PA_, PK_) && V == (k == ea_gK ? v : 0);
+	} else
+		ok = ok && V == 0;
+	i = ea_gI;
+	if (i < n) {
+		k = rc->list[i].ea_key;
+		ok = ok && EA_PART2(k, i, n, PA_, PK_);
+	}
+	i = ea_gI - 1;
+	if (ea_gI >= 1 && i < n) {
+		k = rc->list[i].ea_key;
+		ok = ok && EA_PART2(k, i, n, PA_, PK_);
+	}
+	if (n >= 1) {
+		i = n - 1;
+		k = rc->list[i].ea_key;
+		ok = ok && EA_PART2(k, i, n, PA_, PK_);
+		i = EA_CUR(rc);
+		k = rc->list[i].ea_key;
+		ok = ok && EA_PART2(k, i, n, PA_, PK_);
+	}
+	return ok;
 }
-/* the instances of "strictly ascending" an operation relies on (see the head of this file) */
-static int EA_WF_BUNDLE(const struct ea_refcount *rc, unsigned long long PA_, unsigned long long PK_)
+/*
+ * post-state: well_formed at the arbitrary index ea_gI for the arbitrary key K whose lower bound is now QK, and
+ * view(K) == V (observed when the arbitrary index happens to be QK; K beyond the last entry: V == 0)
+ */
+static int EA_POST_OK(const struct ea_refcount *rc, unsigned long long QK, unsigned long long V)
 {
-	return PA_ <= rc->count && PK_ <= rc->count &&
-	       EA_WF_AT(rc, PA_, PA_, PK_) && EA_WF_AT(rc, PA_ - 1, PA_, PK_) &&
-	       EA_WF_AT(rc, PK_, PA_, PK_) && EA_WF_AT(rc, PK_ - 1, PA_, PK_) &&
-	       EA_WF_AT(rc, ea_gI, PA_, PK_) && EA_WF_AT(rc, ea_gI - 1, PA_, PK_) &&
-	       EA_WF_AT(rc, rc->count - 1, PA_, PK_) && EA_WF_AT(rc, EA_CUR(rc), PA_, PK_);
+	unsigned long long n = rc->count, i = ea_gI, k, v;
+
+	if (!EA_BASIC(rc) || QK > n)
+		return 0;
+	if (QK == n && V != 0)
+		return 0;
+	if (i < n) {
+		k = rc->list[i].ea_key;
+		v = rc->list[i].ea_value;
+		if (!FSCKDS_PART(k, i, n, ea_gK, QK))
+			return 0;
+		if (i == QK && V != (k == ea_gK ? v : 0))
+			return 0;
+	}
+	return 1;
 }
 
 /* the state the operation starts from */
-#define EA_PRE(rc, key) \
-	(EA_BASIC(rc) && (key) == ea_gA && ea_collapsed == 0 && EA_WF_BUNDLE(rc, ea_gPA, ea_gPK) && \
-	 ea_gV == EA_VIEW(rc, ea_gK, ea_gPK))
+#define EA_PRE(rc, key) ((key) == ea_gA && ea_collapsed == 0 && EA_STATE_OK(rc, ea_gPA, ea_gPK, ea_gV))
 /* lower bound of K in the post-state: an entry was added (below K) or not */
 #define EA_BCOUNT(rc) (ea_collapsed ? ea_gCount2 : OLD((rc)->count))
 #define EA_ADDED(rc) ((rc)->count == EA_BCOUNT(rc) + 1)
+#define EA_SAMECOUNT(rc) ((rc)->count == EA_BCOUNT(rc))
 #define EA_QK(rc) (EA_BPK + ((EA_ADDED(rc) && ea_gA < ea_gK) ? 1 : 0))
-#define EA_QA EA_BPA
-#define EA_POST_WF(rc) \
-	(EA_BASIC(rc) && EA_QK(rc) <= (rc)->count && ((rc)->count == EA_BCOUNT(rc) || EA_ADDED(rc)) && \
-	 EA_PART(rc, ea_gI, ea_gK, EA_QK(rc)))
 #define EA_MUTABLE(rc) (rc)->cursor, (rc)->count, (rc)->size, (rc)->list, __CPROVER_object_whole((rc)->list), \
 	ea_collapsed, ea_gPA2, ea_gPK2, ea_gCount2, ea_dec
 
@@ -273,10 +293,18 @@ static void refcount_collapse(ext2_refcount_t refcount)
 	REQUIRES(0) ASSIGNS();
 static void ea_unused_collapse_contract(ext2_refcount_t refcount)
 #endif
-	REQUIRES(EA_BASIC(refcount) && ea_collapsed == 0)
-	REQUIRES(EA_WF_BUNDLE(refcount, ea_gPA, ea_gPK) && ea_gV == EA_VIEW(refcount, ea_gK, ea_gPK))
+	REQUIRES(ea_collapsed == 0 && EA_STATE_OK(refcount, ea_gPA, ea_gPK, ea_gV))
 	ASSIGNS(refcount->count, __CPROVER_object_whole(refcount->list), ea_collapsed, ea_gPA2, ea_gPK2, ea_gCount2)
 	ENSURES(ea_collapsed == 1 && refcount->count <= OLD(refcount->count) && ea_gCount2 == refcount->count)
-	ENSURES(EA_WF_BUNDLE(refcount, ea_gPA2, ea_gPK2))
-	ENSURES(EA_VIEW(refcount, ea_gK, ea_gPK2) == ea_gV)
-	ENSURES(ea_gI >= refcount->count || refcount->list[ea_gI].ea_value != 0);
+	ENSURES(EA_STATE_OK(refcount, ea_gPA2, ea_gPK2, ea_gV))
+	/*
+	 * Case split over the outcome of the collapse of a FULL list (count == size on entry), one unit per case; the two
+	 * cases are exhaustive because count' <= count:  'shrink': a zero-valued entry was dropped, there is room now;
+	 * 'grow': nothing was dropped, the list has to be resized.
+	 */
+#if defined(EA_SCEN_SHRINK)
+	ENSURES(refcount->count < OLD(refcount->count))
+#elif defined(EA_SCEN_GROW)
+	ENSURES(refcount->count == OLD(refcount->count))
+#endif
+	;
